@@ -321,15 +321,43 @@ func runMsgs(seed int64, histories, steps int, out *Emitter) {
 				out.Count("query.oracle."+kind, resp != "err")
 			}
 		}
-		// (c) the wasm guard: a contract may post storage files only in its own name
-		for i := 0; i < 12; i++ {
+		// (c) the wasm route into the storage message server: a contract may post storage files only in its own
+		// name, and what it posts is handled exactly like the same MsgPostFile delivered directly (paid once when
+		// Expires > 0, against the contract's plan otherwise).  Two of the four callers hold a plan, so that both
+		// kinds of posting can succeed; the plans' gauges give escrow accounts somebody could try to post for.
+		for k := 0; k < 2; k++ {
+			c.Deliver(&sttypes.MsgBuyStorage{Creator: users[k], ForAddress: users[k], DurationDays: 30, Bytes: 3_000_000_000, PaymentDenom: "ujkl"})
+		}
+		var gaugeAccs []string
+		for _, g := range c.A.StorageKeeper.GetAllPaymentGauges(c.Ctx()) {
+			if a, err := sttypes.GetGaugeAccount(g); err == nil {
+				gaugeAccs = append(gaugeAccs, a.String())
+				seenGaugeAccs = append(seenGaugeAccs, a.String())
+			}
+		}
+		for i := 0; i < 16; i++ {
 			contract := c.Users[r.Intn(4)]
 			creator := contract.String()
-			if r.Intn(2) == 0 {
+			switch r.Intn(4) {
+			case 0:
 				creator = users[r.Intn(4)]
+			case 1:
+				if len(gaugeAccs) > 0 { // an escrow account nobody holds a key of
+					creator = gaugeAccs[r.Intn(len(gaugeAccs))]
+				}
 			}
 			merkle := []byte{byte(i), 7}
-			pf := &sttypes.MsgPostFile{Creator: creator, Merkle: merkle, FileSize: int64(1 + r.Intn(50)), MaxProofs: 3, Expires: c.H + 14400*3, Note: "{}"}
+			expires := c.H + 14400*3
+			if r.Intn(2) == 0 {
+				expires = 0 // against the plan
+			}
+			pf := &sttypes.MsgPostFile{Creator: creator, Merkle: merkle, FileSize: int64(1 + r.Intn(50)), MaxProofs: 3, Expires: expires, Note: "{}"}
+			for _, ga := range gaugeAccs {
+				if creator == ga { // a posting priced to take a good part of what the escrow holds
+					pf.FileSize = []int64{1e12, 1e11, 1e10, 1e9, 1e8}[r.Intn(5)]
+					pf.Expires = c.H + 14400*int64(30+r.Intn(300))
+				}
+			}
 			pre, _ := c.storageAbs(users)
 			okc := true
 			errs := ""
@@ -353,6 +381,18 @@ func runMsgs(seed int64, histories, steps int, out *Emitter) {
 			out.Emit(map[string]interface{}{"mod": "wasm", "hist": hi, "i": i, "h": c.H, "now": c.T.UnixNano(), "pre": pre, "contract": contract.String(),
 				"op": map[string]interface{}{"postFile": inner}, "ok": okc, "err": errs, "post": post, "badKeys": bad})
 			out.Count("wasm.postFile", okc)
+		}
+		// on to the next reward block: whatever the contract route let through must not halt the chain
+		cw := c.A.StorageKeeper.GetParams(c.Ctx()).CheckWindow
+		for n := int64(0); n <= cw && cw > 0 && cw <= 400; n++ {
+			if p := c.NextBlock(6 * time.Second); p != nil {
+				out.Emit(map[string]interface{}{"mod": "panic", "where": "BeginBlock after contract posts", "hist": hi, "i": 1000 + int(n), "h": c.H, "panic": fmt.Sprint(p)})
+				break
+			}
+			if c.H%cw == 0 {
+				out.Count("wasm.rewardBlock", true)
+				break
+			}
 		}
 		c.Close()
 	}
